@@ -51,8 +51,9 @@ def run_sectionfun(prog, sid, plugins=True):
     I = Interpreter(prog)
     st = pelx.new_stream(I)
     cfg = I.new("pel.peltool.config.Config")
-    if not plugins:
-        I.obj(cfg).attrs["allow_plugins"] = Const(False)
+    if plugins is not True:
+        # False, or a symbolic switch (the analysis then covers both settings at once)
+        I.obj(cfg).attrs["allow_plugins"] = Const(False) if plugins is False else plugins
     out = I.x_collections_OrderedDict([], {}, None)
     I.call(PT + "sectionFun", [st, out, Const(sid), SECLEN, VER, SUB, COMP, CRE, cfg])
     return I, st, out
@@ -113,11 +114,9 @@ def check_dispatch_and_consumption(rep, prog):
             if sid in ZERO_LEN_OK:
                 zero_length_reads(rep, I, where, "C01.R4.consumption")
             # a section is decoded from its own bytes only: nothing it reads may live in an object shared by all sections
-            for e in I.events:
-                if e.kind == "shared_mutation" and (e.data[0].startswith("class ") or e.data[0].startswith("default argument")):
-                    rep.fail("C01.R2.once", e.func, e.node, "%s accumulates decoded data in %s, which every section object of that kind "
-                             "shares: the second such section of a log (or of a later log) shows the first one's values" % (
-                                 where, e.data[0]), node=e.node)
+            from .c19 import shared_write_problems
+            for e, why in shared_write_problems(I):
+                rep.fail("C01.R2.once", e.func, e.node, "%s: %s" % (where, why), node=e.node)
 
 
 def callout_walk_loops(I):
